@@ -133,8 +133,9 @@ class FailingResponder(Responder):
         self.tried = False
 
     def submit(self, stream: str) -> Generator[str, None, None]:
-        # Behave like regular Responder initially
-        response = super().submit(stream)
+        # Behave like regular Responder initially (materialized, as a
+        # generator object is truthy even when it would yield nothing.)
+        response = list(super().submit(stream))
         # Also check stream for our failure sentinel
         failed = self.pattern_matches(stream, self.sentinel, "failure_index")
         # Error out if we seem to have failed after a previous response.
